@@ -198,9 +198,10 @@ pub(super) async fn process_command(
         }
     };
 
-    // Check if the request was allowed (for THROTTLE commands)
+    // Check if the request was allowed: only a THROTTLE reply carries a decision.  Other
+    // commands (e.g. PING echoing a 5-element array) must never be classified by reply shape.
     let allowed = match &result {
-        RespValue::Array(values) if values.len() >= 5 => {
+        RespValue::Array(values) if command == "THROTTLE" && values.len() >= 5 => {
             matches!(&values[0], RespValue::Integer(1))
         }
         _ => true, // Non-throttle commands are considered allowed
